@@ -56,10 +56,11 @@ Fixpoint render_node (pm : pmap) (n : node) : str :=
   end.
 Definition render_kids (pm : pmap) (l : list node) : str := flat_map (render_node pm) l.
 
-(* serialize_root: declarations first, then attributes_data.update(own attributes) *)
+(* serialize_root: declarations first (namespace names escaped like attribute values, d973cc6), then
+   attributes_data.update(own attributes) *)
 Definition root_attributes_data (pm : pmap) (attrs : list attr) : dict str :=
   fold_left (fun d kv => dict_set (fst kv) (snd kv) d) (generate_attributes_data pm attrs)
-            (map (fun kv => (fst kv, quote (snd kv))) (declared_attributes pm)).
+            (map (fun kv => (fst kv, quote (escape_attr (snd kv)))) (declared_attributes pm)).
 Definition render_root (pm : pmap) (n : node) : str :=
   match n with
   | Tag ns name attrs kids =>
@@ -67,7 +68,8 @@ Definition render_root (pm : pmap) (n : node) : str :=
   | _ => render_node pm n
   end.
 
-(* serialize_node raises InvalidCodePath on a text node with empty content *)
+(* a text node with empty content is written as nothing (bfce419; it raised InvalidCodePath before):
+   render_node (Text []) = [].  has_empty_text is kept for the check's regression class. *)
 Fixpoint has_empty_text (n : node) : bool :=
   match n with
   | Tag _ _ _ kids => existsb has_empty_text kids
@@ -77,8 +79,7 @@ Fixpoint has_empty_text (n : node) : bool :=
 
 (* TagNode.serialize(namespaces=caller) with no format options; `ord` as in Ns/Prefixes.v *)
 Definition serialize (caller : caller_map) (ord : list (list str)) (t : node) : res str :=
-  bind (collect caller (root_ns_of t) ord)
-       (fun pm => if has_empty_text t then Crash InvalidCodePath else Ok (render_root pm t)).
+  bind (collect caller (root_ns_of t) ord) (fun pm => Ok (render_root pm t)).
 
 Definition enc_res_str (r : res str) : list N :=
   match r with
